@@ -618,16 +618,23 @@ class SD:
         # ---------------- writer: evaluate the build formulas on representative config tuples
         e2 = engine(prog, InlineOnly(names=("header.SOMEIPSDOption.build_option",), props=False, max_depth=2, unroll=3))
         wps = [p for p in self.paths(bd, q, eng=e2)]
-        samples = [(), (("a", None),), (("key", "v"),), (("k", "a=b"),), (("x", None), ("yy", "zz")), (("p", ""), ("q", None))]
+        samples = [(), (("a", None),), (("key", "v"),), (("k", "a=b"),), (("x", None), ("yy", "zz")), (("p", ""), ("q", None)),
+                   # string lengths at the codec boundaries: 0x7F / 0x80 (a length byte that is not ASCII), 0xFF (the largest)
+                   (("k" * 127, None),), (("k" * 128, None),), (("k" * 100, "v" * 154),), (("a", None), ("k" * 200, "v"))]
         wfail = {}
         for cfg in samples:
             want_body = b"\x00" + b"".join(
                 bytes([len(k) + (0 if v is None else len(v) + 1)]) + k.encode() + (b"" if v is None else b"=" + v.encode()) for k, v in cfg) + b"\x00"
-            got = self._eval_config_build(bd, wps, me, cfg)
+            try:
+                got = self._eval_config_build(bd, wps, me, cfg)
+            except (UnicodeError, ValueError, OverflowError) as exc:
+                wfail.setdefault(f"{bd.qual}:layout", f"configs {str(cfg)[:60]!r} (string lengths {[len(k) + (0 if v is None else len(v) + 1) for k, v in cfg]}) "
+                                 f"cannot be encoded: the build formula raises {type(exc).__name__} - every string of up to 255 bytes has a length-prefixed encoding")
+                continue
             if got is None:
                 continue  # needs deeper unrolling than enumerated
             if got != _struct.pack("!HB", len(want_body), 1) + want_body:
-                wfail.setdefault(f"{bd.qual}:layout", f"configs {cfg!r} encode to {bytes(got).hex()}; SOME/IP-SD configuration option is {(_struct.pack('!HB', len(want_body), 1) + want_body).hex()}")
+                wfail.setdefault(f"{bd.qual}:layout", f"configs {str(cfg)[:60]!r} encode to {bytes(got).hex()}; SOME/IP-SD configuration option is {(_struct.pack('!HB', len(want_body), 1) + want_body).hex()}")
         run.abstract_cases += len(samples)
         for k, msg in wfail.items():
             run.ob(rule_w, k, False, loc(bd), msg)
@@ -708,13 +715,21 @@ class SD:
                 return items[tm[3]]
             if tm[0] == "call" and tm[1][0] == "attr" and tm[1][2] in ("encode",):
                 return _pure_method(eval_term(tm[1][1], leaf), tm[1][2], [eval_term(a, leaf) for a in tm[2]])
+            if tm[0] == "attr" and tm[1][0] == "mod" and tm[1][1] in self.prog.modules:
+                # a module constant computed from other constants (e.g. SEPARATOR.decode(ENCODING))
+                mi_ = self.prog.modules[tm[1][1]]
+                if tm[2] in mi_.consts and tm[2] not in mi_.rebound:
+                    v_ = self.eng._eval_in_module(mi_.consts[tm[2]], mi_)
+                    if v_ != tm and v_[0] != "unknown":
+                        return eval_term(v_, leaf)
             raise AnalysisError(f"{bd.qual}: formula depends on {show(tm)}")
 
         hits = []
         for p in wps:
             terms = [c for c, _, _, _ in p.conds] + ([p.retval()] if p.returns() else [])
             used = {s_[3] for t_ in terms for s_ in subterms(t_) if s_[0] == "elem" and s_[1] == ("attr", me, "configs")}
-            if used != set(range(len(items))):
+            whole = any(s_[0] == "comp" and any(g_[1] == ("attr", me, "configs") for g_ in s_[3]) for t_ in terms for s_ in subterms(t_))
+            if used != set(range(len(items))) and not whole:  # (a comprehension over configs covers every length)
                 continue
             try:
                 if all(bool(eval_term(c, leaf)) == v for c, v, _, _ in p.conds):
